@@ -228,6 +228,10 @@ namespace {
             }
             out.push_back("}");
             break;
+        case ::ot_reference:
+            // only reachable at the top: QPDF::replaceObject(og, <handle of og>) leaves an object that refers to itself
+            out.push_back("R" + std::to_string(oh.getObjectID()) + "." + std::to_string(oh.getGeneration()));
+            break;
         default: out.push_back("?" + std::string(oh.getTypeName())); break;
         }
     }
